@@ -27,6 +27,11 @@ type Ctx struct {
 	kill    []func()
 	// Tag distinguishes several contexts alive in one execution (C14); unused otherwise.
 	Tag string
+	// Params are driver-chosen inputs (loop bounds etc.) read through P.
+	Params     []int
+	probes     int
+	ProbeAt    []int // probe call index of each sample
+	ProbeDepth []int // stack depth at that sample
 }
 
 func New(ans []int, maxEv, panicAt int) *Ctx {
@@ -106,4 +111,35 @@ func (c *Ctx) KillAll() {
 		f()
 	}
 	c.kill = nil
+}
+
+// ---- parameters and stack-depth probes (C14/C17 drivers)
+
+// P returns the i-th parameter the driver configured for this execution (0 when absent).
+func (c *Ctx) P(i int) int {
+	if i < len(c.Params) {
+		return c.Params[i]
+	}
+	return 0
+}
+
+// Probe samples the call-stack depth. It is not an event. Samples are taken at probe calls
+// 1..64 and at every power of two and its neighbours, so that sampling stays cheap even when the
+// depth itself grows linearly.
+func (c *Ctx) Probe() {
+	c.probes++
+	n := c.probes
+	if n > 64 {
+		near := false
+		for _, m := range []int{n - 1, n, n + 1} {
+			if m&(m-1) == 0 {
+				near = true
+			}
+		}
+		if !near {
+			return
+		}
+	}
+	c.ProbeAt = append(c.ProbeAt, n)
+	c.ProbeDepth = append(c.ProbeDepth, StackDepth())
 }
